@@ -36,18 +36,18 @@ checks = {}
 
 checks["C01"] = dict(
     runs=dict(
-        quick=[H("HarnessCrash", crash(2, 1, opset=1), shards=14, depth=5),
-               H("HarnessCrash", crash(1, 1), shards=8, depth=4),
-               H("HarnessCrash", crash(1, 2, opset=1, crashkind=1, usability=0), shards=8, depth=5),
-               H("HarnessCrash", crash(1, 1, armopen=1, opset=1, seg=64), shards=4, depth=4)],
-        thorough=[H("HarnessCrash", crash(2, 1), shards=42, depth=6, timeout="40m"),
-                  H("HarnessCrash", crash(2, 1, seg=64), shards=42, depth=6, timeout="40m"),
-                  H("HarnessCrash", crash(1, 2, armopen=1, opset=3), shards=56, depth=7, timeout="60m"),
-                  H("HarnessCrash", crash(1, 2, opset=3, crashkind=1), shards=42, depth=6, timeout="40m"),
-                  H("HarnessCrash", crash(1, 1, pre=3, seg=64, armopen=1), shards=28, depth=5, timeout="30m")]),
+        quick=[H("HarnessCrash", crash(2, 1, opset=1), shards=14, depth=10),
+               H("HarnessCrash", crash(1, 1), shards=8, depth=10),
+               H("HarnessCrash", crash(1, 2, opset=1, crashkind=1, usability=0), shards=8, depth=10),
+               H("HarnessCrash", crash(1, 1, armopen=1, opset=1, seg=64), shards=4, depth=10)],
+        thorough=[H("HarnessCrash", crash(2, 1), shards=42, depth=10, timeout="40m"),
+                  H("HarnessCrash", crash(2, 1, seg=64), shards=42, depth=10, timeout="40m"),
+                  H("HarnessCrash", crash(1, 2, armopen=1, opset=3), shards=56, depth=10, timeout="60m"),
+                  H("HarnessCrash", crash(1, 2, opset=3, crashkind=1), shards=42, depth=10, timeout="40m"),
+                  H("HarnessCrash", crash(1, 1, pre=3, seg=64, armopen=1), shards=28, depth=10, timeout="30m")]),
     required_reach=["crash-verified", "recovered-pre", "recovered-post", "probe-present"],
-    bounds=dict(quick="K<=2 operations from {append 1, append 2, DeleteRange(min,max 64-bit symbolic)} then one power loss at any environment call, segment sizes 100 B (2 entries/segment) and 64 B (1 entry/segment), payload 0..1 symbolic bytes, Term<128, start index 1; plus 2 pre-existing segments with crash points inside Open",
-                thorough="as quick plus seg=64 with K=2, two nested crash epochs (crash inside recovery and in the appends after it) with K=1 appends per epoch"),
+    bounds=dict(quick='one power loss at any modifying environment call after: K=2 appends (batches of 1 entry; 2 entries per 100-byte segment so the second seals and rotates); K=1 operation from {append 1, append 2, DeleteRange(min,max 64-bit symbolic)}; a process crash (page cache survives) at any call of a first incarnation followed by one append in a second incarnation and a power loss; a first-ever Open with crash points inside Open plus one append with one entry per segment. Payload 0..1 symbolic bytes, Term<128, start index 1, rotation run or left pending after each call',
+                thorough='K=2 over the full alphabet with 2 and 1 entries per segment; two nested power-loss epochs with crash points inside recovery; process crash + power loss with batches of two; 3 pre-built segments with crash points inside Open'),
     assumptions=CRASH_ASSUME,
     outside=["more than K operations per epoch / more than E crashes", "bbolt and kernel internals below the VFS/MetaStore contracts", "garbled (neither old nor new) sectors", "intermediate file lengths after a torn extension", "process crash that keeps the page cache followed by a later power loss (only power loss is modelled)"],
     level_text=CRASH_TEXT,
@@ -55,16 +55,16 @@ checks["C01"] = dict(
 
 checks["C02"] = dict(
     runs=dict(
-        quick=[H("HarnessCrash", crash(1, 2, opset=1, usability=0), shards=14, depth=5),
-               H("HarnessCrash", crash(2, 1, opset=1), shards=14, depth=5),
-               H("HarnessCrash", crash(1, 1, opset=2), shards=4, depth=4)],
-        thorough=[H("HarnessCrash", crash(2, 1), shards=42, depth=6, timeout="40m"),
-                  H("HarnessCrash", crash(1, 2, opset=1, pre=1, seg=128), shards=28, depth=6, timeout="40m"),
-                  H("HarnessCrash", crash(1, 2, armopen=1, opset=3), shards=56, depth=7, timeout="60m"),
-                  H("HarnessCrash", crash(2, 2, opset=1, usability=0), shards=56, depth=7, timeout="60m")]),
+        quick=[H("HarnessCrash", crash(1, 2, opset=1, usability=0), shards=14, depth=10),
+               H("HarnessCrash", crash(2, 1, opset=1), shards=14, depth=10),
+               H("HarnessCrash", crash(1, 1, opset=2), shards=4, depth=10)],
+        thorough=[H("HarnessCrash", crash(2, 1), shards=42, depth=10, timeout="40m"),
+                  H("HarnessCrash", crash(1, 2, opset=1, pre=1, seg=128), shards=28, depth=10, timeout="40m"),
+                  H("HarnessCrash", crash(1, 2, armopen=1, opset=3), shards=56, depth=10, timeout="60m"),
+                  H("HarnessCrash", crash(2, 2, opset=1, usability=0), shards=56, depth=10, timeout="60m")]),
     required_reach=["crash-verified", "recovered-pre", "recovered-post"],
-    bounds=dict(quick="K<=2 appends (batches of 1 or 2) then a power loss; chains: 2 crash epochs with one append each (stale bytes of the first torn batch left in the file)",
-                thorough="adds DeleteRange, crash points inside Open, and two appends per epoch over two epochs"),
+    bounds=dict(quick='chains: two power-loss epochs with one append each (stale bytes of the first torn batch stay in the preallocated file); K=2 appends then a power loss; one batch of two entries (half-applied recovery would show as one of them)',
+                thorough='K=2 over the full alphabet; chains on a tail that already holds a commit (pre=1, 3 entries per segment); crash points inside Open; two appends per epoch over two epochs'),
     assumptions=CRASH_ASSUME,
     outside=["chains of more than two crashes", "CRC collisions", "stale bytes produced by I/O errors combined with crashes"],
     level_text=CRASH_TEXT + "; batches of two make half-applied recovery visible, two crash epochs build stale-byte chains",
@@ -72,15 +72,15 @@ checks["C02"] = dict(
 
 checks["C03"] = dict(
     runs=dict(
-        quick=[H("HarnessCrash", crash(2, 1, seg=64, armopen=1, opset=1), shards=14, depth=5),
-               H("HarnessCrash", crash(1, 1, pre=1, seg=128, armopen=1, opset=4), shards=6, depth=4)],
-        thorough=[H("HarnessCrash", crash(2, 1, seg=64, armopen=1), shards=42, depth=6, timeout="40m"),
-                  H("HarnessCrash", crash(2, 1, seg=100, armopen=1), shards=42, depth=6, timeout="40m"),
-                  H("HarnessCrash", crash(1, 2, armopen=1, opset=3, seg=64), shards=56, depth=7, timeout="60m"),
-                  H("HarnessCrash", crash(1, 2, opset=1, crashkind=1, armopen=1), shards=42, depth=6, timeout="40m")]),
+        quick=[H("HarnessCrash", crash(2, 1, seg=64, armopen=1, opset=1), shards=14, depth=10),
+               H("HarnessCrash", crash(1, 1, pre=1, seg=128, armopen=1, opset=4), shards=6, depth=10)],
+        thorough=[H("HarnessCrash", crash(2, 1, seg=64, armopen=1), shards=42, depth=10, timeout="40m"),
+                  H("HarnessCrash", crash(2, 1, seg=100, armopen=1), shards=42, depth=10, timeout="40m"),
+                  H("HarnessCrash", crash(1, 2, armopen=1, opset=3, seg=64), shards=56, depth=10, timeout="60m"),
+                  H("HarnessCrash", crash(1, 2, opset=1, crashkind=1, armopen=1), shards=42, depth=10, timeout="40m")]),
     required_reach=["crash-verified"],
-    bounds=dict(quick="every crash point of a first-ever Open plus K<=2 appends with one entry per segment (every append seals and rotates), and of a tail truncation (ForceSeal) on a 2-entry log; after recovery: append, stable Set, head truncation, no-op truncation, close, reopen must all succeed",
-                thorough="adds DeleteRange to the alphabet, 2 entries per segment, and a crash inside recovery (2 epochs)"),
+    bounds=dict(quick="every crash point of a first-ever Open and of K=2 appends with one entry per segment (every append seals and rotates: all points between the sealing append and the rotation's metadata commit, rotation pending or run); a tail truncation (ForceSeal) with crash points inside Open; after each recovery: append at Last+1, stable Set, head truncation, no-op truncation, close and reopen must succeed and be reflected",
+                thorough='adds DeleteRange and batches of two, 2 entries per segment, a crash inside recovery (two epochs), process crash + power loss with crash points inside Open'),
     assumptions=CRASH_ASSUME,
     outside=["creation of the real bbolt file (safeInitBoltDB) - covered at call level by C07", "more than 2 crash epochs"],
     level_text=CRASH_TEXT + "; the usability probe after every recovery is the C03 assertion group",
@@ -88,16 +88,16 @@ checks["C03"] = dict(
 
 checks["C04"] = dict(
     runs=dict(
-        quick=[H("HarnessCrash", crash(1, 1, pre=3, seg=64, opset=4), shards=14, depth=5),
-               H("HarnessCrash", crash(1, 1, pre=2, seg=128, opset=4), shards=4, depth=4),
-               H("HarnessCrash", crash(2, 1, pre=1, seg=128, script=31), shards=14, depth=5)],
-        thorough=[H("HarnessCrash", crash(2, 1, pre=3, seg=64, opset=5), shards=42, depth=6, timeout="40m"),
-                  H("HarnessCrash", crash(2, 1, pre=2, seg=100, script=31), shards=28, depth=6, timeout="40m"),
-                  H("HarnessCrash", crash(2, 1, pre=2, seg=128, opset=5), shards=42, depth=6, timeout="40m"),
-                  H("HarnessCrash", crash(3, 1, pre=2, seg=100, opset=5), shards=56, depth=7, timeout="60m")]),
+        quick=[H("HarnessCrash", crash(1, 1, pre=3, seg=64, opset=4), shards=14, depth=10),
+               H("HarnessCrash", crash(1, 1, pre=2, seg=128, opset=4), shards=4, depth=10),
+               H("HarnessCrash", crash(2, 1, pre=1, seg=128, script=31), shards=14, depth=10)],
+        thorough=[H("HarnessCrash", crash(2, 1, pre=3, seg=64, opset=5), shards=42, depth=10, timeout="40m"),
+                  H("HarnessCrash", crash(2, 1, pre=2, seg=100, script=31), shards=28, depth=10, timeout="40m"),
+                  H("HarnessCrash", crash(2, 1, pre=2, seg=128, opset=5), shards=42, depth=10, timeout="40m"),
+                  H("HarnessCrash", crash(3, 1, pre=2, seg=100, opset=5), shards=56, depth=10, timeout="60m")]),
     required_reach=["crash-verified", "delete", "recovered-post", "recovered-pre"],
-    bounds=dict(quick="a 3-segment log (one entry per segment) and a 2-entry log, DeleteRange(min,max) with both bounds 64-bit symbolic, crash at any call inside it or in the append that follows; re-appended entries after a tail truncation carry fresh symbolic contents",
-                thorough="two operations after the pre-built log from {append, DeleteRange}, 1 and 2 entries per segment, and three operations on the 2-entry log"),
+    bounds=dict(quick="DeleteRange(min,max) with both bounds 64-bit symbolic on a 3-segment log (one entry per segment) and on a tail holding 2 unsealed entries (truncation inside the live tail: ForceSeal), crash at any modifying call inside it; the script 'tail truncation then append' with crash points in both (re-appended entries carry fresh symbolic contents)",
+                thorough='two free operations from {append, DeleteRange} after 3- and 2-segment logs, three operations on a 2-entry log'),
     assumptions=CRASH_ASSUME,
     outside=["logs of more than 3 segments"],
     level_text=CRASH_TEXT + "; the in-flight DeleteRange makes (FirstIndex,LastIndex) either the old or the new pair, an acknowledged one stays applied",
@@ -105,15 +105,15 @@ checks["C04"] = dict(
 
 checks["C13"] = dict(
     runs=dict(
-        quick=[H("HarnessCrash", crash(1, 1, pre=3, seg=64, opset=4), shards=14, depth=5),
-               H("HarnessCrash", crash(2, 1, seg=64, script=13), shards=14, depth=5),
+        quick=[H("HarnessCrash", crash(1, 1, pre=3, seg=64, opset=4), shards=14, depth=10),
+               H("HarnessCrash", crash(2, 1, seg=64, script=13), shards=14, depth=10),
                H("HarnessSeq", {"K": 2, "bmax": 100, "seg": 64, "c13": 1}, shards=4, depth=4)],
-        thorough=[H("HarnessCrash", crash(2, 1, pre=3, seg=64, opset=5), shards=42, depth=6, timeout="40m"),
-                  H("HarnessCrash", crash(1, 2, seg=64, opset=5, armopen=1), shards=56, depth=7, timeout="60m"),
+        thorough=[H("HarnessCrash", crash(2, 1, pre=3, seg=64, opset=5), shards=42, depth=10, timeout="40m"),
+                  H("HarnessCrash", crash(1, 2, seg=64, opset=5, armopen=1), shards=56, depth=10, timeout="60m"),
                   H("HarnessSeq", {"K": 3, "bmax": 100, "seg": 64, "c13": 1}, shards=28, depth=5, timeout="30m")]),
     required_reach=["crash-verified", "c13-checked"],
-    bounds=dict(quick="crash family: as C04/C01 with one entry per segment; sequential family: K<=3 operations, after every DeleteRange the directory holds exactly the live segments' files; Create never hits an existing name in any epoch, IDs in every committed state distinct and below NextSegmentID",
-                thorough="two operations after a 3-segment log; crash inside recovery"),
+    bounds=dict(quick="crash family: DeleteRange on a 3-segment log and 'append then DeleteRange' with one entry per segment, power loss at any modifying call, then Open: directory = exactly the live segments' files, IDs distinct and below NextSegmentID, Create never hit an existing name in any epoch; sequential family: K<=2 operations with one entry per segment, after every call the directory holds exactly the live files",
+                thorough='two operations after a 3-segment log; crash inside recovery; K<=3 sequential'),
     assumptions=CRASH_ASSUME,
     outside=["concurrent readers pinning old state while files are deleted (only sequential reads)"],
     level_text=CRASH_TEXT + "; directory listing vs live segments and Create-collision accounting are the C13 assertion group",
@@ -129,8 +129,8 @@ checks["C05"] = dict(
                   H("HarnessSeq", {"K": 2}, shards=28, depth=5, timeout="30m"),
                   H("HarnessSeq", {"K": 4, "bmax": 100, "seg": 100, "ops": 4}, shards=56, depth=6, timeout="40m")]),
     required_reach=["seq-done", "append1", "append2", "delete", "reopen", "bad-append", "probe-present", "probe-absent"],
-    bounds=dict(quick="all sequences of K<=3 operations from {append 1, append 2, bad append (non-contiguous / internally non-consecutive), DeleteRange(min,max), Close+Open}; start index symbolic in [1,100], min/max/probe index unconstrained 64-bit; 256-byte segments (rotation after ~5 entries); Term<128, payload 0..1 bytes",
-                thorough="adds 64-byte segments (one entry per segment), start index over the whole 64-bit range (all varint widths) with K=2, and K=4 without bad appends"),
+    bounds=dict(quick='all sequences of K<=2 operations from {append 1, append 2, bad append (non-contiguous / internally non-consecutive, offending index 64-bit symbolic), DeleteRange(min,max), Close+Open} with 256- and 64-byte segments, and all sequences of K=3 without the bad append; start index symbolic in [1,100], min/max/probe index unconstrained 64-bit; Term<128, payload 0..1 bytes',
+                thorough='K=3 with the full alphabet, 64-byte segments, start index over the whole 64-bit range (all varint widths) with K=2, K=4 without bad appends'),
     assumptions=COMMON_ASSUME + ["appended indexes do not wrap (start index <= 2^64-17)"],
     outside=["sequences longer than K", "index wrap at 2^64"],
     level_text="Bounded symbolic execution of the real WAL against a contiguous-log reference model: operation sequence, start index, (min,max) and probe index are solver variables; every comparison with the model is a z3 query on every path",
@@ -141,12 +141,12 @@ checks["C08"] = dict(
         quick=[H("HarnessStable"),
                H("HarnessStableBolt", {}, pkg="harness/hfs"),
                H("HarnessMetaRecord", {}, pkg="harness/hfs"),
-               H("HarnessCrash", crash(2, 1, opset=9), shards=16, depth=6)],
+               H("HarnessCrash", crash(2, 1, opset=9), shards=16, depth=10)],
         thorough=[H("HarnessStable"),
                   H("HarnessStableBolt", {}, pkg="harness/hfs"),
                   H("HarnessMetaRecord", {}, pkg="harness/hfs"),
-                  H("HarnessCrash", crash(3, 1, opset=9), shards=40, depth=6, timeout="30m"),
-                  H("HarnessCrash", crash(2, 1, opset=13, seg=64), shards=40, depth=6, timeout="30m")]),
+                  H("HarnessCrash", crash(3, 1, opset=9), shards=40, depth=10, timeout="30m"),
+                  H("HarnessCrash", crash(2, 1, opset=13, seg=64), shards=40, depth=10, timeout="30m")]),
     required_reach=["stable-checked", "stable-bolt-checked", "meta-record-checked", "stable-set", "crash-verified"],
     bounds=dict(quick="keys of 1..2 symbolic bytes, values of 6..9 symbolic bytes, uint64 values 64-bit symbolic; interleaved with a sealing append, a truncation and a reopen; crash family: K<=2 operations from {append, Set} then a power loss at any call - an acknowledged Set is read back after recovery",
                 thorough="K<=3 and DeleteRange in the alphabet"),
@@ -157,11 +157,11 @@ checks["C08"] = dict(
 
 checks["C10"] = dict(
     runs=dict(
-        quick=[H("HarnessFault", {"K": 2, "F": 1}, shards=14, depth=5)],
-        thorough=[H("HarnessFault", {"K": 2, "F": 1}, shards=28, depth=6),
-                  H("HarnessFault", {"K": 2, "F": 1, "seg": 64}, shards=28, depth=6, timeout="30m"),
-                  H("HarnessFault", {"K": 2, "F": 2}, shards=56, depth=7, timeout="40m"),
-                  H("HarnessFault", {"K": 2, "F": 1, "sticky": 1}, shards=28, depth=6, timeout="30m")]),
+        quick=[H("HarnessFault", {"K": 2, "F": 1}, shards=14, depth=9)],
+        thorough=[H("HarnessFault", {"K": 2, "F": 1}, shards=28, depth=9),
+                  H("HarnessFault", {"K": 2, "F": 1, "seg": 64}, shards=28, depth=9, timeout="30m"),
+                  H("HarnessFault", {"K": 2, "F": 2}, shards=56, depth=9, timeout="40m"),
+                  H("HarnessFault", {"K": 2, "F": 1, "sticky": 1}, shards=28, depth=9, timeout="30m")]),
     required_reach=["fault-checked", "append-failed", "append-acked", "delete-failed"],
     bounds=dict(quick="K<=2 operations from {append 1-2 entries, DeleteRange(min,max)}, one injected failure at any VFS/MetaStore call (a failing WriteAt applies any subset of its 8-byte chunks), then clean reopen",
                 thorough="adds one entry per segment, two failures, persistent (sticky) failures"),
@@ -287,7 +287,8 @@ checks["C09"] = dict(
 checks["C11"] = dict(
     runs=dict(
         quick=[H("HarnessDecode", {"maxlen": 8}, pkg="harness/hcodec", shards=8, depth=4),
-               H("HarnessDecodeMutated", {}, pkg="harness/hcodec", shards=14, depth=4),
+               H("HarnessDecodeMutated", {"iw": 10, "dlen": 1, "elen": 1}, pkg="harness/hcodec", shards=7, depth=4),
+               H("HarnessDecodeMutated", {"iw": 1, "dlen": 2, "elen": 1}, pkg="harness/hcodec", shards=7, depth=4),
                H("HarnessGarbageTail", {"maxchunks": 7}, pkg="harness/hseg", shards=4, depth=4),
                H("HarnessGarbageSealed", {"maxchunks": 5}, pkg="harness/hseg", shards=8, depth=4),
                H("HarnessDump", {"maxchunks": 7}, pkg="harness/hseg", shards=2, depth=3),
